@@ -1,11 +1,11 @@
 package checks
 
 import (
-	"time"
 	"encoding/json"
 	"fmt"
 	"sort"
 	"strings"
+	"time"
 
 	"github.com/olric-data/olric/internal/verif/clustermc"
 	"github.com/olric-data/olric/internal/verif/core"
@@ -18,6 +18,7 @@ import (
 // (one table per fragment), pruning of emptied owners.
 
 type c03Params struct {
+	Background bool // every partition holds a key from the start (see c03New)
 	Name   string
 	Opts   simcluster.Opts
 	Depth  int
@@ -54,6 +55,23 @@ func c03New(p *c03Params) *c03Sys {
 	s.Keys = []string{"k0",
 		s.Cl.FindKey("k", func(k string) bool { return k != "k0" && s.Cl.PartID("d", k) == p0 }),
 		s.Cl.FindKey("k", func(k string) bool { return s.Cl.PartID("d", k) != p0 })}
+	if p.Background {
+		// one more key in every partition, written in the initial state and never touched by an
+		// event: whichever partition a join reshuffles, it holds data the oracle looks at
+		kv := s.kv(0)
+		for part := uint64(0); part < p.Opts.Partitions; part++ {
+			part := part
+			k := s.Cl.FindKey(fmt.Sprintf("bg%d-", part), func(k string) bool { return s.Cl.PartID("d", k) == part })
+			s.Ver++
+			v := fmt.Sprintf("v%d", s.Ver)
+			if r := kv.Put(k, []byte(v), simcluster.PutOpt{}); r.Err != "" {
+				panic("c03: background key: " + r.Err)
+			}
+			s.Keys = append(s.Keys, k)
+			s.Ref[k] = v
+			s.Safe[k] = len(s.Cl.Live()) >= p.Opts.Replicas
+		}
+	}
 	return s
 }
 
@@ -119,7 +137,7 @@ func (s *c03Sys) backupsComplete() bool {
 func (s *c03Sys) Events() []clustermc.Ev {
 	var evs []clustermc.Ev
 	n := len(s.Cl.Live())
-	for i := range s.Keys {
+	for i := range s.Keys[:3] {
 		evs = append(evs, clustermc.Ev{K: "put", A: i, B: 0})
 		if n > 1 {
 			evs = append(evs, clustermc.Ev{K: "put", A: i, B: 1})
@@ -311,9 +329,15 @@ func (s *c03Sys) Check() []clustermc.Fail {
 	for _, k := range s.Keys {
 		want := s.Ref[k]
 		owner := s.Cl.Owner(view, "d", k)
+		// the CURRENT backup owners are the last min(R,N)-1 entries of the list (earlier entries are
+		// former backup owners that still hold data): those are the members that have to hold the
+		// key's backup copies once the cluster has stabilised
 		listed := map[string]bool{}
-		for _, b := range s.Cl.Backups(view, "d", k) {
-			listed[b.Name] = true
+		bl := s.Cl.Backups(view, "d", k)
+		for i, b := range bl {
+			if b != nil && i >= len(bl)-wantBackups {
+				listed[b.Name] = true
+			}
 		}
 		prim, back := 0, 0
 		for _, c := range s.Cl.Copies("d", k) {
@@ -432,10 +456,20 @@ func c03Specs(tier string) []*clustermc.Spec {
 		depth = 8
 		cfs = append(cfs, cf{1, 1, 128, false}, cf{2, 1, 1 << 16, false}, cf{2, 2, 1 << 16, true})
 	}
+	// three replicas: a backup partition has two current owners, a join changes the closest-3 set
+	// and a backup fragment is handed to BOTH of them; explored from 3 to 4 members, less deep
+	cfs = append(cfs, cf{3, 3, 128, false})
 	var out []*clustermc.Spec
 	for _, c := range cfs {
-		p := &c03Params{Name: fmt.Sprintf("N0=%d R=%d table=%d leaves=%v", c.n0, c.r, c.table, c.leaves), Depth: depth, MaxN: maxN, Leaves: c.leaves,
-			Opts: simcluster.Opts{N: c.n0, Replicas: c.r, WriteQ: 1, ReadQ: 1, Partitions: 3, TableSize: c.table}}
+		depth, maxN := depth, maxN
+		parts := uint64(3)
+		if c.r == 3 {
+			// (buraksezer/consistent panics "not enough room to distribute partitions" for 3
+			// partitions on 4 members: an input the library does not support, see DESIGN 14)
+			depth, maxN, parts = depth-3, 4, 7
+		}
+		p := &c03Params{Name: fmt.Sprintf("N0=%d R=%d table=%d leaves=%v", c.n0, c.r, c.table, c.leaves), Depth: depth, MaxN: maxN, Leaves: c.leaves, Background: c.r == 3,
+			Opts: simcluster.Opts{N: c.n0, Replicas: c.r, WriteQ: 1, ReadQ: 1, Partitions: parts, TableSize: c.table}}
 		proto := &c03Sys{P: p}
 		out = append(out, &clustermc.Spec{
 			Name: p.Name, Depth: depth,
